@@ -386,7 +386,7 @@ def tagged(ctx, arg, rec):
     from hypothesis import strategies as st
 
     profile, shard, n = arg
-    base = e2e.case_strategy(profile, max_ops=6 if profile != "luts" else 14, big=profile != "luts", small_arena=True, dtypes=None if profile != "luts" else ("int8", "int8", "uint8"))
+    base = e2e.case_strategy(profile, max_ops=6 if profile != "luts" else 14, big=profile != "luts", small_arena=True, dtypes=None if profile != "luts" else ("int8", "int8", "uint8", "int16"))
     run_hypothesis(rec, st.builds(lambda c: dict(c, kind="c03"), base), oracle, n, sub_seed(ctx.seed, PROPERTY, profile, shard))
 
 
